@@ -287,6 +287,20 @@ def h_readonly(shape):
             seq.is_parametrized()
             seq.is_measured()
             seq.get_addressed_bases()
+        elif what == "queries_param_slm":
+            # a parametrized sequence that configured an SLM mask / a detuning map with KEYWORD arguments: the queries that
+            # are allowed on parametrized sequences still answer
+            v = seq.declare_variable("v", dtype=int)
+            seq.delay(v, "g")
+            seq.config_slm_mask(qubits=["q0"])
+            before = l2.snapshot(seq)
+            try:
+                seq.declared_channels
+                seq.is_parametrized()
+                seq.is_in_eom_mode("g")
+                seq.available_channels
+            except Exception:  # noqa: BLE001
+                return [("readonly:queries_answer", False)]
         elif what == "sample":
             pulser.sampler.sample(seq)
         elif what == "sample_mod":
@@ -361,7 +375,7 @@ def kernels(tier):
     for pre, call in (("p2", "own_add_in_eom"), ("p2", "own_enable_eom_twice"), ("p0", "own_add_eom_outside"), ("p1", "own_add_eom_outside"),
                       ("p1", "own_target_global"), ("p1", "own_delay_badchannel_kw")):
         ks.append(("unknown_var", dict(device="virt_maxseq", prefix=pre, call=call, own_var=False)))
-    for what in ("str", "get_duration", "estimate", "phase_ref", "queries", "sample", "sample_mod", "build_copy", "to_abstract_repr", "serialize"):
+    for what in ("str", "get_duration", "estimate", "phase_ref", "queries", "queries_param_slm", "sample", "sample_mod", "build_copy", "to_abstract_repr", "serialize"):
         for eom in (False, True):
             if what == "sample" and eom:
                 continue  # EOM needs modulation; sampling needs a concrete timeline (no stubbed fall times)
